@@ -97,6 +97,13 @@ class JsonSchemaParser:
                 if applicable is not None and key not in applicable:
                     continue
                 constraints[constant.CONSTRAINTS_MAP[key]] = val
+        if schema_type == 'number':
+            bounds = [k for k in ('gt', 'ge', 'lt', 'le') if isinstance(constraints.get(k), (int, float))
+                      and not isinstance(constraints.get(k), bool)]
+            if any(isinstance(constraints[k], float) for k in bounds):
+                # bounds of one constrained type have one number type: {"minimum": 1, "maximum": 2.5}
+                for k in bounds:
+                    constraints[k] = float(constraints[k])
         return constraints
 
     def parse_field(self, schema: dict,
